@@ -150,6 +150,20 @@ static void run_case(val *c)
 		}
 	}
 	o_close();
+	if (stop == 2) {
+		/* the client goes straight on to the next entry: archive_write_header() finishes the previous one
+		 * implicitly (oracle-only cases: the model has no second entry) */
+		struct archive_entry *e2 = archive_entry_new();
+		archive_entry_copy_pathname(e2, "other.txt");
+		archive_entry_set_filetype(e2, AE_IFREG);
+		archive_entry_set_perm(e2, 0644);
+		archive_entry_set_size(e2, 3);
+		fin = archive_write_header(a, e2);
+		if (fin >= ARCHIVE_WARN)
+			(void)archive_write_data(a, "abc", 3);
+		(void)archive_write_finish_entry(a);
+		archive_entry_free(e2);
+	} else
 	fin = archive_write_finish_entry(a);
 	clo = archive_write_close(a);
 	fre = archive_write_free(a);
